@@ -190,11 +190,70 @@ func checkC20Parse(c *Ctx, n int) {
 			argv = append(argv, word)
 		}
 		cs.Ops = []Op{{Kind: "parse", Args: argv}}
+		// a third of the flat command sets: the program hides, shows or renames commands AFTER a first call
+		// (which has produced its diagnostic, and a help text); the judged call comes afterwards and must
+		// speak about the commands as they are now
+		changed := false
+		if len(path) == 0 && r.Intn(3) == 0 {
+			hiddenNow := map[string]bool{}
+			for _, nm := range names {
+				hiddenNow[nm] = true
+			}
+			for _, nm := range visible {
+				hiddenNow[nm] = false
+			}
+			if r.Intn(2) == 0 {
+				cs.Ops = append(cs.Ops, Op{Kind: "help", Cols: 80})
+			}
+			cur := append([]string{}, names...)
+			for k := range names {
+				switch r.Intn(4) {
+				case 0:
+					hiddenNow[cur[k]] = !hiddenNow[cur[k]]
+					cs.Ops = append(cs.Ops, Op{Kind: "build", B: &BuildOp{Kind: "setcmd", Target: 2 + k, Attr: "hidden", Vals: []string{b01(hiddenNow[cur[k]])}}})
+					changed = true
+				case 1:
+					nn := "zz" + cur[k]
+					if r.Intn(2) == 0 {
+						nn = "aa" + cur[k]
+					}
+					if seen[nn] {
+						continue
+					}
+					seen[nn] = true
+					hiddenNow[nn] = hiddenNow[cur[k]]
+					cur[k] = nn
+					cs.Ops = append(cs.Ops, Op{Kind: "build", B: &BuildOp{Kind: "setcmd", Target: 2 + k, Attr: "name", Vals: []string{hx(nn)}}})
+					changed = true
+				}
+			}
+			if changed {
+				visible = nil
+				for _, nm := range cur {
+					if !hiddenNow[nm] {
+						visible = append(visible, nm)
+					}
+				}
+				names = cur
+				if given && (seen[word] && word != "") {
+					continue
+				}
+				cs.Ops = append(cs.Ops, Op{Kind: "parse", Args: argv})
+			}
+		}
 		cs.Description = describeOps(cs)
 		c.RunCases([]*Case{cs}, func(cr *CaseResult) {
 			c.classifyCase(cr)
-			for _, o := range parseBlocks(cr) {
+			blocks := parseBlocks(cr)
+			if changed && len(blocks) > 1 {
+				blocks = blocks[len(blocks)-1:]
+				c.Class("c20/commands hidden, shown or renamed after an earlier call")
+			}
+			for _, o := range blocks {
 				in := map[string]interface{}{"names": names, "visible": visible, "aliases": aliases, "word": word, "word_given": given, "argv": argv}
+				if changed {
+					in["case"] = cs.Description
+				}
 				if len(aliases) > 0 {
 					c.Class("c20/with aliases")
 				}
